@@ -69,45 +69,47 @@ type Program struct {
 }
 
 type VC struct {
-	prog        *Program
-	fn          *FuncInfo
-	info        *types.Info
-	obls        []*Obligation
-	heap0       map[string]*Term
-	heapSorts   map[string]*Sort
-	runTag      string
-	entry       *State // entry state (for old())
-	boxed       map[types.Object]bool
-	frames      []*Frame
-	siteOrd     map[ast.Node]string // node -> ordinal string per kind
-	siteOrd2    map[ast.Node]string // statements
-	loopPath    map[ast.Stmt]string
-	errs        []string
-	inlineDepth int
-	closures    map[types.Object]*ast.FuncLit
-	mode        string // "int" or "bv"
-	quiet       bool   // suppress obligations (used when executing spec-level inlined pure calls)
-	prefix      string // obligation name prefix for inlined callee sites
-	curPos      token.Pos
-	epochCtr    int
-	topPanics   []*State
-	analyzed    map[ast.Node]bool
-	noKF        bool
-	paramVals   map[*types.Var]*Term
-	curClause   *SExpr
-	goCount     int
-	workerMode  bool
-	lastRecv    *Term
-	gaddrSeen   map[string]bool
-	usedSites   map[string]bool
-	heapGoTypes map[string]types.Type
-	mapValArr   map[string]bool
-	epochAlloc  map[string]*Term
-	bgFacts     []*Term // facts about lazily created heap versions (true in every state of this run)
-	topMods     modSet
-	modAll      bool
-	curStmt     ast.Stmt
-	ghostTypes  map[string]types.Type
+	prog          *Program
+	fn            *FuncInfo
+	info          *types.Info
+	obls          []*Obligation
+	heap0         map[string]*Term
+	heapSorts     map[string]*Sort
+	runTag        string
+	entry         *State // entry state (for old())
+	boxed         map[types.Object]bool
+	frames        []*Frame
+	siteOrd       map[ast.Node]string // node -> ordinal string per kind
+	siteOrd2      map[ast.Node]string // statements
+	loopPath      map[ast.Stmt]string
+	errs          []string
+	inlineDepth   int
+	closures      map[types.Object]*ast.FuncLit
+	mode          string // "int" or "bv"
+	quiet         bool   // suppress obligations (used when executing spec-level inlined pure calls)
+	prefix        string // obligation name prefix for inlined callee sites
+	curPos        token.Pos
+	epochCtr      int
+	topPanics     []*State
+	analyzed      map[ast.Node]bool
+	noKF          bool
+	paramVals     map[*types.Var]*Term
+	curClause     *SExpr
+	goCount       int
+	workerMode    bool
+	callbacksDone map[*ast.FuncLit]bool
+	callbackCount int
+	lastRecv      *Term
+	gaddrSeen     map[string]bool
+	usedSites     map[string]bool
+	heapGoTypes   map[string]types.Type
+	mapValArr     map[string]bool
+	epochAlloc    map[string]*Term
+	bgFacts       []*Term // facts about lazily created heap versions (true in every state of this run)
+	topMods       modSet
+	modAll        bool
+	curStmt       ast.Stmt
+	ghostTypes    map[string]types.Type
 }
 
 type jumpTarget struct {
